@@ -133,6 +133,12 @@ Theorem C13_ordered_segments : forall len c, wf c -> forall grp, (forall id, In 
 Proof. exact ordered_run_spec. Qed.
 Print Assumptions C13_ordered_segments.
 
+(* 9b. several groups in one call: every group is processed on its own (C13_ordered_segments applies to each) *)
+Theorem C13_ordered_groups_independent : forall fuel len c gs1 g gs2,
+  nth (length gs1) (ordered_multi fuel len c (gs1 ++ g :: gs2)) (Err EFuel) = ordered_run fuel len c g.
+Proof. exact ordered_multi_independent. Qed.
+Print Assumptions C13_ordered_groups_independent.
+
 (* 10. the graph-based and the ordered-segments results agree with each other *)
 Theorem C13_methods_agree : forall len c grp o st r id d v, wf c ->
   ordered_run (fuel_of c) len c grp = Ok (o, st) -> (forall x, In x grp -> In x (ids c)) ->
